@@ -131,6 +131,40 @@ WIDE_20 = {
     'w_register_dup_group': WIDE_1X['w_register_dup_group'],
     'w_create_rich_then_bad': WIDE_1X['w_create_rich_then_bad'],
 }
+# ---- the read family: operations that must not change anything, each followed by a committing item
+# (a reader that scribbles on the loaded object is harmless alone - nothing commits - and persists
+# in a batch) and repeated (the second answer must equal the first)
+READS = {
+    'r_get5': lambda u: W.p_get('5'),
+    'r_get5_wrapped': lambda u: W.p_get('5', wrapping_spec=W.wrapping_spec('6')),
+    'r_get1_wrapped': lambda u: W.p_get('1', wrapping_spec=W.wrapping_spec('6')),
+    'r_get_attributes5': lambda u: W.p_get_attributes('5'),
+    'r_get_attribute_list5': lambda u: W.p_get_attribute_list('5'),
+    'r_locate_name': lambda u: W.p_locate([W.attr(AT.NAME, 'w0')]),
+    'r_locate_group': lambda u: W.p_locate([W.attr(AT.OBJECT_GROUP, 'g1')]),
+    'r_encrypt6': lambda u: W.p_encrypt('6', iv=b'\x00' * 16),
+    'r_decrypt1': lambda u: W.p_decrypt('1'),
+    'r_mac1': lambda u: W.p_mac('1'),
+    'r_derive4': lambda u: W.p_derive_key(['4'], attrs=W.sym_attrs(masks=MASKS)),
+    'r_query': lambda u: W.p_query(),
+    'r_discover': lambda u: W.p_discover(),
+}
+for _k, _f in READS.items():
+    ITEMS[_k] = (_f, False, _k == 'r_derive4')
+
+
+def read_family():
+    out = []
+    for version in ((1, 2), (1, 4), (2, 0)):
+        for r in READS:
+            out.append(((r, 'create'), version))
+            out.append(((r, 'activate_1' if version == (2, 0) else 'modify_1'), version))
+            out.append(((r, r, 'create'), version))
+            for w_ in ('w_activate5', 'w_destroy5', 'w_register_rich'):
+                out.append(((r, w_, r), version))
+    return out
+
+
 for _k, _f in list(WIDE_1X.items()) + list(WIDE_20.items()):
     ITEMS[_k] = (_f, False, _k.startswith(('w_register', 'w_create', 'w_pair', 'w_derive')))
 
@@ -178,6 +212,8 @@ QUICK_ITEMS = ['create', 'register_secret', 'get_ph', 'destroy_ph', 'modify_ph',
                'destroy_1', 'get_missing', 'get_denied', 'register_conflict', 'register_dup_names',
                'create_bad_alg']
 
+THOROUGH_ITEMS = QUICK_ITEMS + ['get_attributes_ph', 'modify_1', 'modify_state_1', 'mac_opaque', 'locate']
+
 STORES = ['active', 'preactive', 'empty']
 ID_MODES = ['all', 'none']       # plus ('missing', k)
 ERR = [None, BEO.STOP, BEO.CONTINUE, BEO.UNDO]
@@ -206,6 +242,10 @@ def store(kind):
                 names=['w0', 'w1'], groups=['g0', 'g1'], appinfo=[('ns', 'd0'), ('ns', 'd1')]) + [
                     W.attr(AT.CRYPTOGRAPHIC_USAGE_MASK, MASKS)]))                            # 5
             assert r5.uid() == '5', r5.brief()
+            r6 = w.do(VERSION, W.p_register(W.pie_symmetric(value=b'\x6b' * 16), [
+                W.attr(AT.CRYPTOGRAPHIC_USAGE_MASK, [CUM.WRAP_KEY, CUM.ENCRYPT, CUM.DECRYPT])]))  # 6: KEK
+            assert r6.uid() == '6', r6.brief()
+            w.do(VERSION, W.p_activate('6'))
             if kind == 'active':
                 w.do(VERSION, W.p_activate('1'))
         _STORE_CACHE[kind] = w
@@ -436,7 +476,7 @@ def _worker(task):
 
 def run(tier, seed):
     rep = Reporter('C08', 'model_checking', tier, seed)
-    alphabet = QUICK_ITEMS if tier == 'quick' else list(ITEMS)
+    alphabet = QUICK_ITEMS if tier == 'quick' else THOROUGH_ITEMS
     maxlen = 3
     seqs = []
     for n in range(1, maxlen + 1):
@@ -445,7 +485,7 @@ def run(tier, seed):
         seqs += list(itertools.product(QUICK_ITEMS[:10], repeat=4))
     fam = placeholder_family()
     seqs += fam
-    wide = [e + ('wide',) for e in wide_family(tier)]
+    wide = [e + ('wide',) for e in wide_family(tier) + read_family()]
     seqs += wide
     nshard = 64
     sigs = set()
@@ -487,7 +527,10 @@ def run(tier, seed):
                     "1.4) + 20 (KMIP 2.0) attribute operations and multi-row creations aimed at an "
                     "object with two names/groups/application entries, most of which succeed on a "
                     "correct server: [x, committing item], [Create, x] and every ordered pair [x, y, "
-                    "Create], each under the default and the Continue option",
+                    "Create], each under the default and the Continue option. Read family: 13 operations "
+                    "that must change nothing (plain and wrapped Get, GetAttributes, GetAttributeList, "
+                    "Locate, Encrypt, Decrypt, MAC, DeriveKey, Query, DiscoverVersions) as [r, committing "
+                    "item], [r, r, Create] and [r, w, r] under three versions",
     ), assumptions=[
         "os.urandom is replaced by a length-determined constant so that batch and twin create equal "
         "key material; time is a logical clock",
